@@ -325,3 +325,59 @@ func C09_Tables() {
 	verif.Assert(err == nil && bytes.Equal(d1.Bytes(), d2.Bytes()), "dump of the loaded program is byte-identical")
 	verif.Reach("compared")
 }
+
+// C09_Names: the program name stored in the dump is the loaded program's
+// name whatever name the caller passes to LoadProg (empty, one byte, across
+// the one-byte varint boundary, beyond the 4096-byte buffer).
+func C09_Names() {
+	var name string
+	switch verif.Choice("name", 5) {
+	case 0:
+		name = ""
+	case 1:
+		name = verif.String("n", 1)
+	case 2:
+		name = verif.String("n", 2)
+	case 3:
+		name = strings.Repeat("n", 240) + verif.String("n", 1)
+	default:
+		name = strings.Repeat("dir/", 1100) + "x.bcl"
+	}
+	loadName := []string{"", "other", name}[verif.Choice("loadname", 3)]
+	mode := verif.Choice("reader", 2)
+	p, dis, out, log := c09Parse("var a = 1\nprint a\nprint a/0\n", name)
+	c09RoundTrip(p, loadName, mode)
+	c09Finish(dis, out, log)
+}
+
+// C09_Reload: Load into a Prog that already holds another program replaces
+// every part of it (code, constants, positions, line table).
+func C09_Reload() {
+	srcs := []string{
+		"print 1\n\n\n\nprint 2/0\n",
+		"var a = \"s\"\nprint a\ndef t {\n f = a\n}\nbind t -> struct\nbind t -> struct\n",
+		"print 3\n",
+	}
+	i, j := verif.Choice("first", 3), verif.Choice("second", 3)
+	mode := verif.Choice("reader", 2)
+	pa, _, _, _ := c09Parse(srcs[i], "a")
+	pb, disB, outB, logB := c09Parse(srcs[j], "b")
+	var db bytes.Buffer
+	verif.Assert(pb.Dump(&db) == nil, "dump succeeds")
+	// pa keeps its own writers; Load must replace its program by pb's
+	err := pa.Load(c09Reader(db.Bytes(), mode))
+	verif.Assert(err == nil, "load succeeds")
+	if err != nil {
+		return
+	}
+	verif.Reach("loaded")
+	var da bytes.Buffer
+	verif.Assert(pa.Dump(&da) == nil && bytes.Equal(da.Bytes(), db.Bytes()), "dump of the reloaded program is byte-identical")
+	_ = disB
+	b1, bind1, err1 := bcl.Execute(pb)
+	b2, bind2, err2 := bcl.Execute(pa)
+	verif.Assert(errText(err1) == errText(err2), "same runtime error text and position")
+	verif.Assert(blocksEqual(b1, b2) && bindingEqual(bind1, bind2), "same blocks and binding")
+	_, _ = outB, logB
+	verif.Reach("compared")
+}
